@@ -133,7 +133,25 @@ func (propC07) Gen(r *Rng, tier string) *World {
 			w.Exprs = append(w.Exprs, ExprSpec{Prog: i, Mask: r.Intn(16), Event: []string{"", "", "report", "debug", "both"}[r.Intn(5)]})
 			continue
 		}
-		w.Progs = append(w.Progs, g.Program())
+		prog := g.Program()
+		if k.LongLists && r.P(0.5) {
+			// long lists on both sides of a set operator, evaluated on every call
+			// with whatever the call binds: scratch structures a built-in keeps
+			// between calls (pooled lookup sets, sorted copies) get used, reused
+			// and — with a shorter list after a longer one — left partly stale
+			lt, et := TIntList, TInt
+			if r.P(0.3) {
+				lt, et = TStrList, TStr
+			}
+			var test *Node
+			if r.P(0.6) {
+				test = Op("overlap", g.Leaf(lt), g.litOf(lt))
+			} else {
+				test = Op("in", g.Leaf(et), g.Leaf(lt))
+			}
+			prog = If(test, prog, prog.Clone())
+		}
+		w.Progs = append(w.Progs, prog)
 		w.Exprs = append(w.Exprs, ExprSpec{Prog: i, Mask: r.Intn(16), Event: []string{"", "", "report", "debug", "both"}[r.Intn(5)]})
 	}
 	w.Cfg = g.C
